@@ -323,11 +323,11 @@ void h_init_pcf(void)
 {
 	const struct model_chan_spec *chan; struct pcf *pcf;
 	int r = init_pcf(chan, pcf);
-	if (r == 0 && g_seen) REACH("observed type declared");
+	/* (one REACH for both: each failing REACH is a solver call) */
+	if (r == 0 && g_seen && g_l.n == 1 && g_k == 2 && g_addtype_n == 3) REACH("observed type declared: third of three declared types, its id occurs once");
 	if (r == 0 && !g_seen && g_addtype_n > 0) REACH("observed channel has no type (-1), others do");
 	if (r == 0 && g_addtype_n == 0 && g_cv_n == 0) REACH("nothing to declare");
 	if (r != 0) REACH("failure propagated");
-	if (r == 0 && g_l.n == 1 && g_k == 2 && g_addtype_n == 3) REACH("third of three declared types observed (unique id)");
 }
 
 /* =====================================================================================
